@@ -6,8 +6,25 @@ import (
 	"github.com/reedom/convergen/pkg/generator/model"
 )
 
+// rendered is an assignment that has been rendered already.
+type rendered string
+
+func (r rendered) String() string { return string(r) }
+func (r rendered) RetError() bool { return false }
+
 // AssignmentToString returns the string representation of the assignment.
 func AssignmentToString(f *model.Function, a model.Assignment) string {
+	if nest, ok := a.(model.NestStruct); ok {
+		// Render the members one by one so that each error-returning call inside
+		// the nested struct gets its own error check.
+		contents := make([]model.Assignment, len(nest.Contents))
+		for i, c := range nest.Contents {
+			contents[i] = rendered(AssignmentToString(f, c))
+		}
+		nest.Contents = contents
+		return nest.String()
+	}
+
 	var sb strings.Builder
 	sb.WriteString(a.String())
 	if a.RetError() {
